@@ -183,6 +183,27 @@ def _check_terminated(ctx, f, subject, label):
             ctx.check(is_term, label, 'no limit/exit branch fired -> message is the termination condition\'s own: %s' % shown[:60],
                       'a path on which no limit and no exit request is true reports %s instead of the '
                       'termination condition\'s message' % shown[:80], f, p.exit_node)
+    # the exit request alone must make its branch fire: the branch test, as a boolean function of its atoms, is true
+    # whenever the _EARLYEXIT atom is true (a conjunct such as `self._handle_sigint and ...` would ignore requests)
+    import itertools
+    from .. import pathcond as PC
+    seen_tests = set()
+    for fired, notfired, msg, p in res:
+        for kind, tt, node in fired + notfired:
+            if kind != 'exit' or id(node) in seen_tests:
+                continue
+            seen_tests.add(id(node))
+            atoms = PC.leaves(tt)
+            ex = [a for a in atoms if '._EARLYEXIT' in T.show(a)]
+            others = [a for a in atoms if a not in ex]
+            ctx.need(len(atoms) <= 10, 'exit test too large for a truth table')
+            implied = all(PC.ev(tt, dict(list(zip(others, bits)) + [(a, True) for a in ex]))
+                          for bits in itertools.product((False, True), repeat=len(others))) and \
+                all(isinstance(a, tuple) and a[0] == 'attr' for a in ex)
+            ctx.stats['truth_table_rows'] += 2 ** len(others)
+            ctx.check(implied, label + '#exit-request', 'an exit request alone makes the exit branch fire (%s)' % T.show(tt)[:60],
+                      'the exit branch is tested as %s: an exit request can be true while the branch does not fire, so the request is ignored'
+                      % T.show(tt)[:100], f, node)
     for k in ('maxfun', 'maxiter', 'exit'):
         ctx.check(k in kinds_seen, label, 'source %s is consulted' % k,
                   'Terminated no longer consults the %s stop source' % k, f, f.node)
@@ -218,16 +239,27 @@ def _reached_means_ge(ctx, term, count_atom, limit_atom, f, node, label):
     for rel, rank in (('<', {count_atom: 0, limit_atom: 1}), ('=', {count_atom: 0, limit_atom: 0}),
                       ('>', {count_atom: 1, limit_atom: 0})):
         assume = {}
+        free = []
         for a in cond_atoms(term):
             if a[0] == 'cmp' and a[1] in ('is', 'isnot') and a[3] == ('const', None):
                 assume[a] = (a[1] == 'isnot')
-        try:
-            v = ordabs.evaluate(term, rank, assume)
-        except ordabs.Unknown as e:
-            raise AnalysisError('cannot order-evaluate %s' % e)
-        ctx.stats['orderings_enumerated'] += 1
+            elif not (a[0] == 'cmp' and a[2] in rank and a[3] in rank) and a not in free:
+                free.append(a)    # any other conjunct/disjunct: the answer must not depend on it
+        if len(free) > 8:
+            raise AnalysisError('too many atoms in limit test %s' % T.show(term))
+        import itertools
+        vals = set()
+        for bits in itertools.product((False, True), repeat=len(free)):
+            asg = dict(assume)
+            asg.update(zip(free, bits))
+            try:
+                vals.add(ordabs.evaluate(term, rank, asg))
+            except ordabs.Unknown as e:
+                raise AnalysisError('cannot order-evaluate %s' % e)
+            ctx.stats['orderings_enumerated'] += 1
+        v = vals.pop() if len(vals) == 1 else ('depends on ' + ', '.join(T.show(a)[:30] for a in free))
         rows.append('%s:%s' % (rel, v))
-        if v != (rel != '<'):
+        if v is not (rel != '<'):
             okall = False
     ctx.check(okall, label, 'count vs limit orderings %s' % ' '.join(rows),
               'limit test %s is not "count >= limit": %s' % (T.show(term), ' '.join(rows)), f, node)
